@@ -14,3 +14,4 @@ open Gossamer.C12 Gossamer.Scale
 #print axioms Gossamer.Scale.Spec.sound
 #print axioms Gossamer.Scale.Spec.truncated
 #print axioms Gossamer.Scale.compactDec_sound
+#print axioms C12_alloc_ok_bounded
